@@ -97,7 +97,7 @@ class Euler:
     """One explicit Euler step per requested interval; row layout of the shipped Scipy integrator
     (`integrate(t_end, steps)` -> `steps + 1` points; `integrate_time_course` prepends t0)."""
 
-    def __init__(self, rhs, y0, jacobian=None, *, nss=4, h=0.25, fail=()):
+    def __init__(self, rhs, y0, jacobian=None, *, nss=4, h=0.25, fail=(), tol=None):
         from mxlpy.types import IntegrationFailure, NoSteadyState, Result  # noqa: F401
 
         self.rhs = rhs
@@ -106,6 +106,7 @@ class Euler:
         self.t0 = 0.0
         self.nss = nss
         self.h = h
+        self.tol = tol
         d0 = rhs(0.0, self.y0)
         key = float(sum(self.y0) + 3.0 * sum(float(v) for v in d0))
         self.fail = key in fail
@@ -144,17 +145,22 @@ class Euler:
             return Result(NoSteadyState())
         self.reset()
         y = np.array(self.y0, dtype=float)
+        prev = y
         t = 0.0
         for _ in range(self.nss):
+            prev = y
             y = y + self.h * np.array(self.rhs(t, tuple(y)), dtype=float)
             t += self.h
+        if self.nss > 0 and self.tol is not None and not bool(np.all(np.abs(y - prev) < self.tol)):
+            return Result(NoSteadyState())  # the last step still moved a variable by tol or more
         return Result(TimeCourse(time=np.array([t], dtype=float), values=np.array([y], dtype=float)))
 
 
 def make_integ(cfg):
     if cfg is None:
         return None
-    return partial(Euler, nss=int(cfg["nss"]), h=fl(cfg["h"]), fail=tuple(fl(k) for k in cfg["fail"]))
+    return partial(Euler, nss=int(cfg["nss"]), h=fl(cfg["h"]), fail=tuple(fl(k) for k in cfg["fail"]),
+                   tol=None if cfg.get("tol") is None else fl(cfg["tol"]))
 
 
 # --------------------------------------------------------------------------- tolerant comparison
